@@ -1883,8 +1883,18 @@ func runC03Proc(c *fw.Case) {
 	c.Class(fmt.Sprintf("cli damaged-object %s unc=%v backend=%d consumer=%d disabled=%v", kinds[kind], unc, backend, consumer, disabled))
 	c.Note("real `desync %s`; object of chunk %d of %d %s (%d -> %d bytes)", strings.Join(args, " "), victim, n, kinds[kind], len(good), len(bad))
 	c.NonTrivial()
-	exit, _, stderr, err := runDesyncEnv(nil, 120*time.Second, args...)
+	limit := 120 * time.Second
+	if disabled {
+		// with verification switched off an emptied uncompressed object makes IndexPos.Read spin (it re-fetches the
+		// zero-length chunk forever): outside what C03 promises, so do not wait for it
+		limit = 10 * time.Second
+	}
+	exit, _, stderr, err := runDesyncEnv(nil, limit, args...)
 	if errors.Is(err, errProcTimeout) {
+		if disabled {
+			c.Outcome("verification-disabled")
+			return
+		}
 		c.Probe("procsim-timeout-case-dropped")
 		return
 	}
